@@ -1276,6 +1276,30 @@ def maxworld_src(n, events):
     L.append("    if r.is_err() { out.push(\"C10 panic in a %d-archetype world\".to_string()); } if out.is_empty() { println!(\"ALLOK\"); } else { for l in out.iter().take(12) { println!(\"FAIL {}\", l); } } }" % n)
     return "\n".join(L)
 
+def maxarity_src(n):
+    """One archetype with n components (the documented maximum is 16, or 32 with `32_components`):
+    every column is written and read back through create / view / slices / iterator / query / clone / destroy."""
+    L = ["#![forbid(unsafe_code)]", "#![allow(warnings)]", "use gecs::prelude::*;"]
+    for i in range(n):
+        L.append("#[derive(Clone, Debug, PartialEq)] pub struct K%d(pub u32);" % i)
+    L.append("ecs_world! { ecs_archetype!(Wide, %s); }" % ", ".join("K%d" % i for i in range(n)))
+    L.append("fn check(out: &mut Vec<String>) {")
+    L.append("    let mut world = EcsWorld::new();")
+    L.append("    let e0 = world.create::<Wide>((%s,));" % ", ".join("K%d(%d)" % (i, 100 + i) for i in range(n)))
+    L.append("    let e1 = world.create::<Wide>((%s,));" % ", ".join("K%d(%d)" % (i, 200 + i) for i in range(n)))
+    L.append("    { let v = world.view(e1).unwrap(); %s }" % " ".join("if v.component::<K%d>().0 != %d { out.push(\"C02 view column %d\".to_string()); }" % (i, 200 + i, i) for i in range(n)))
+    L.append("    { let b = world.borrow(e0).unwrap(); %s }" % " ".join("if b.component::<K%d>().0 != %d { out.push(\"C02 borrow column %d\".to_string()); }" % (i, 100 + i, i) for i in range(n)))
+    L.append("    %s" % " ".join("if world.wide.get_slice::<K%d>()[1].0 != %d { out.push(\"C02 slice column %d\".to_string()); }" % (i, 200 + i, i) for i in range(n)))
+    L.append("    { let last = ecs_find!(world, e1, |first: &K0, k: &mut K%d| -> u32 { k.0 += 1000; first.0 + k.0 }); if last != Some(%d) { out.push(format!(\"C02 find first+last column {:?}\", last)); } }" % (n - 1, 200 + 200 + n - 1 + 1000))
+    L.append("    { let mut seen = 0u32; for it in world.wide.iter() { seen += 1; } if seen != 2 { out.push(\"C06 iterator arity\".to_string()); } }")
+    L.append("    let c = world.clone(); if c.view_check(e1) != %d { out.push(\"C13 clone last column\".to_string()); }" % (200 + n - 1 + 1000) if False else "    let mut c = world.clone(); if c.view(e1).map(|v| v.component::<K%d>().0) != Some(%d) { out.push(\"C13 clone last column\".to_string()); }" % (n - 1, 200 + n - 1 + 1000))
+    L.append("    match world.wide.destroy(e0) { Some(comps) => { let t = comps.into_tuple(); if (t.0).0 != 100 || (t.%d).0 != %d { out.push(\"C02 destroy returns columns\".to_string()); } } None => out.push(\"C01 destroy\".to_string()) }" % (n - 1, 100 + n - 1))
+    L.append("    if world.wide.len() != 1 || !world.contains(e1) || world.contains(e0) { out.push(\"C01 after destroy\".to_string()); }")
+    L.append("}")
+    L.append("fn main() { let mut out: Vec<String> = Vec::new(); let r = std::panic::catch_unwind(std::panic::AssertUnwindSafe(|| check(&mut out)));")
+    L.append("    if r.is_err() { out.push(\"C10 panic with a %d-component archetype\".to_string()); } if out.is_empty() { println!(\"ALLOK\"); } else { for l in out.iter().take(12) { println!(\"FAIL {}\", l); } } }" % n)
+    return "\n".join(L)
+
 def maxworld(tier, seed, features=()):
     feats = tuple(sorted(features))
     key = key_of("maxworld", repo_hash(), verif_hash(), tier, feats)
@@ -1287,10 +1311,28 @@ def maxworld(tier, seed, features=()):
     rlib, deps = build_gecs(feats, False)
     events = "events" in feats
     violations = []
+    amax = 32 if "32_components" in feats else 16
     jobs = [("full", 256, True), ("over", 257, False)] + ([("half", 129, True)] if tier == "thorough" else [])
+    jobs += [("arity", -amax, True), ("arityover", -(amax + 1), False)]
     def run(job):
         name, n, must_compile = job
         extra = ['feature="%s"' % f for f in feats]
+        if n < 0:
+            r = compile_run(maxarity_src(-n), rlib, deps, "maxa_%s_%s" % (name, key[:10]), run=must_compile, extra_cfg=extra)
+            out = []
+            ev = {"components": -n, "features": list(feats)}
+            c19 = ["C19"] if feats else []
+            if must_compile and r["rc"] != 0:
+                out.append({"tags": ["C02", "C15"] + c19, "what": "an archetype with %d components (the documented maximum%s) does not compile: %s" % (-n, " with " + "+".join(feats) if feats else "", r["stderr"][-400:]), "at": 0, "event": ev, "origin": {"engine": "maxworld"}})
+            elif must_compile:
+                so = r.get("stdout", "")
+                fails = [l[5:] for l in so.splitlines() if l.startswith("FAIL ")]
+                if fails or "ALLOK" not in so:
+                    tags = sorted({f.split()[0] for f in fails if f.split() and f.split()[0].startswith("C")} | set(c19)) or ["C02", "C10"] + c19
+                    out.append({"tags": tags, "what": "%d-component archetype (%s): %s" % (-n, "+".join(feats) or "default", "; ".join(fails)[:500] or so[-400:]), "at": 0, "event": ev, "origin": {"engine": "maxworld"}})
+            elif r["rc"] == 0:
+                out.append({"tags": ["C19", "C15"], "what": "an archetype with %d components compiles (%s)" % (-n, "+".join(feats) or "default"), "at": 0, "event": ev, "origin": {"engine": "maxworld"}})
+            return out
         r = compile_run(maxworld_src(n, events), rlib, deps, "maxw_%s_%s" % (name, key[:10]), run=must_compile, extra_cfg=extra)
         out = []
         ev = {"archetypes": n, "features": list(feats)}
@@ -1309,7 +1351,7 @@ def maxworld(tier, seed, features=()):
             if r["rc"] == 0:
                 out.append({"tags": ["C15"], "what": "a declaration of %d archetypes (ids past 255) compiles" % n, "at": 0, "event": ev, "origin": {"engine": "maxworld"}})
         return out
-    with ThreadPoolExecutor(max_workers=3) as ex:
+    with ThreadPoolExecutor(max_workers=5) as ex:
         for res in ex.map(run, jobs):
             violations += res
     res = {"engine": "maxworld", "cfg": cfg_name(feats, False), "tier": tier, "seed": seed, "programs": len(jobs), "generator_runs": 0, "e2e_crates": len(jobs), "traces": len(jobs),
